@@ -51,8 +51,10 @@ RO_TIERS = {
                  "strains": (1e-7, 1e-6, 1e-5, 1e-4, 5e-4, 1e-3, 2e-3, 5e-3, 0.01, 0.02, 0.05, 0.1, 0.2, 0.5, 1.0),
                  "tolerances": ((None, None), (1e-7, 1e-7), (1e-9, 1e-9), (1e-12, 1e-12))},
 }
-HOOKE = {"E": (1.0, 206e3), "nu": (-0.9, -0.3, 0.0, 0.3, 0.49), "values": (-1.0, 0.0, 2.0)}
-HOOKE_THOROUGH = {"E": (1.0, 70e3, 206e3), "nu": (-0.99, -0.9, -0.3, 0.0, 0.2, 0.3, 0.4, 0.49, 0.499), "values": (-1.0, 0.0, 2.0)}
+# nu close to the limits -1 and 0.5 included ("every -1 < nu < 0.5"): the tolerance grows with the conditioning there
+HOOKE = {"E": (1.0, 206e3), "nu": (-0.9999, -0.9, -0.3, 0.0, 0.3, 0.49, 0.4999), "values": (-1.0, 0.0, 2.0)}
+HOOKE_THOROUGH = {"E": (1.0, 70e3, 206e3), "nu": (-0.99999, -0.9999, -0.99, -0.9, -0.3, 0.0, 0.2, 0.3, 0.4, 0.49, 0.499, 0.4999, 0.49999),
+                  "values": (-1.0, 0.0, 2.0)}
 TRUE = {"strains": (-0.5, 0.0, 0.01, 1.7), "stresses": (-300.0, 0.0, 1.0, 850.0)}
 DEFAULT_RTOL, DEFAULT_TOL = 1e-5, 1e-6
 
@@ -348,9 +350,12 @@ def _hk(what):
     return "C16/Hooke/" + what
 
 
+_COND = [1.0]      # conditioning of the current (E, nu): max(1/(1+nu), 1/(1-2nu)) / 100, at least 1 (set per shard)
+
+
 def _close(got, exp, scale):
     got = [float(np.asarray(x)) for x in got]
-    return len(got) == len(exp) and all(abs(a - b) <= 1e-11 * scale for a, b in zip(got, exp))
+    return len(got) == len(exp) and all(abs(a - b) <= 1e-11 * scale * _COND[0] for a, b in zip(got, exp))
 
 
 def _states(values, k, unit):
@@ -384,7 +389,7 @@ def hooke_state(g, probe, acc):
         acc.evaluations += 2
         e33 = ref.plane_stress_e33(E, nu, e11, e22)
         exp3 = ref.hooke3d_stress(E, nu, (e11, e22, e33, g12, 0.0, 0.0))
-        if not _close(s2, (exp3[0], exp3[1], exp3[3]), sc_s) or abs(exp3[2]) > 1e-11 * sc_s:
+        if not _close(s2, (exp3[0], exp3[1], exp3[3]), sc_s) or abs(exp3[2]) > 1e-11 * sc_s * _COND[0]:
             out.append((_hk("plane-stress/stress-not-the-3d-law-at-zero-out-of-plane-stress"), {"strain": [e11, e22, g12], "got": [float(x) for x in s2], "expected": [exp3[0], exp3[1], exp3[3]]}))
         if not _close(back, (e11, e22, e33, g12), sc_e * 100):
             out.append((_hk("plane-stress/strain-of-stress-not-identity"), {"strain": [e11, e22, g12], "got": [float(x) for x in back], "expected": [e11, e22, e33, g12]}))
@@ -420,7 +425,7 @@ def hooke_state(g, probe, acc):
         s33 = nu * (s11 + s22)
         r = ref.hooke3d_strain(E, nu, (s11, s22, s33, s12, 0.0, 0.0))
         acc.evaluations += 1
-        if not _close(ee, (r[0], r[1], r[3]), sc_e * 100) or abs(r[2]) > 1e-11 * sc_e * 100:
+        if not _close(ee, (r[0], r[1], r[3]), sc_e * 100) or abs(r[2]) > 1e-11 * sc_e * 100 * _COND[0]:
             out.append((_hk("plane-strain/strain-not-the-3d-law-at-zero-out-of-plane-strain"), {"stress": [s11, s22, s12], "got": [float(x) for x in ee], "expected": [r[0], r[1], r[3]]}))
         sb = pe.stress(*ee)
         acc.evaluations += 1
@@ -543,8 +548,16 @@ def run_true(acc):
 
 
 # ------------------------------------------------------------------------------------------------- driver
+def _set_cond(g):
+    if "nu" in g:
+        _COND[0] = max(1.0, max(1.0 / (1.0 + g["nu"]), 1.0 / (1.0 - 2.0 * g["nu"])) / 100.0)
+    else:
+        _COND[0] = 1.0
+
+
 def run_shard(g):
     acc = Acc()
+    _set_cond(g)
     if g["kind"] == "RO":
         run_ro(g, acc)
     elif g["kind"] == "hooke":
@@ -557,6 +570,7 @@ def run_shard(g):
 def replay(case):
     g, probe = case["group"], case["probe"]
     acc = Acc()
+    _set_cond(g)
     p = probe["p"]
     if p == "point":
         return ro_point(g, probe, acc)[0]
